@@ -136,7 +136,7 @@ func vExportNoPanic(c *JApiCore) {
 func HEmitCases() {
 	patterns := []string{"ab+", "[", "a(", "+", "*a", "a{2", "\\", "(?P<x>a)", "a|b", "", "[a-z]{2,}", "\\x01",
 		"[^\\x00-\\x7F]+", "[^\\s\\S]x", "a|[^\\x00-\\x7F]"} // classes without a printable character: the example generator cannot serve them
-	nDocs := 21
+	nDocs := 23
 	di := vInt("doc", 0, nDocs-1)
 	pat, pr := "", ""
 	if di <= 4 || di == 15 {
@@ -177,6 +177,8 @@ func HEmitCases() {
 		"POST /a\n  Request\n    Body\n    // c\n  200\n    Body\n    // c\n",                       // and for Body directives
 		"GET /a\n  200 any\nTYPE @t\n# todo\n",                                                  // a TYPE whose body is a comment, at the end of the file
 		"GET /a\n  200 @t\nTYPE @t\n  // {min: 1}\n",                                             // the same, referred to
+		"ENUM\n[1, 2]\nGET /a\n  200 any\n",                                                      // an ENUM without a name
+		"ENUM # @e\n[1, 2]\nSERVER # @s\n  BaseUrl \"https://h\"\nGET /a\n  200 any\n",            // names lost to a comment
 	}
 	vAssert(len(docs) == nDocs, "bad-fixture-count")
 	c, je := vBuildText("JSIGHT 0.3\n" + docs[di])
